@@ -217,6 +217,15 @@ package check
 //@   loop range:oneComment.LineVec exits-early-only-if [every-line-of-the-block-is-used] false
 //@ end
 
+// hover documentation: the definition chain starts at the hovered declaration; its documentation is the FIRST comment
+// found along the chain (the declaration's own, when it has one) - once found it is never replaced by the comment of
+// a declaration further down the chain (what the variable was initialised from)
+//@ func (*AllProject).GetLspHoverVarStr
+//@   props C13
+//@   loop range:findList step [documentation-is-the-first-comment-along-the-definition-chain]
+//@        (len(prev(strOneComment)) > 0 ==> strOneComment == prev(strOneComment)) && (len(prev(strOneComment)) == 0 && len(strDoc1) > 0 ==> strOneComment == strDoc1)
+//@ end
+
 // ---- C08: the first pass over one file (parse + first traversal), and the unchanged-content short cut ----
 //@ func (*AllProject).analysisFirstLuaFile
 //@   props C08
@@ -253,15 +262,17 @@ package check
 // ---- C09: the per-file cap of workspace symbols ----
 // candidates are collected in map-iteration order; a per-file list longer than the cap is cut only after it has been
 // put into the total order (C09 Less contract), so what survives the cut does not depend on the collection order
+// (C19: the cut keeps the best-scored matches - the exact-name match of a declaration among them - only because the
+// list was ordered first; cutting the collection order drops arbitrary declarations of a large file)
 //@ func goroutineFindSymbols
-//@   props C09
+//@   props C09 C19
 //@   loop 0 step [a-candidate-list-is-cut-only-after-sorting] resultLen > maxSymbols ==> hits("sort.Sort#0") == prev(hits("sort.Sort#0")) + 1
 //@   at call sort.Sort#0 before assert[the-list-that-is-cut-is-the-one-sorted] typeis(arg0, "*check.resultSorter") && as(arg0, "*check.resultSorter") == resultSorter
 //@ end
 //@ func (*AllProject).FindWorkspaceAllSymbol
 //@   props C09 C19
-//@   ensures[C09,merged-list-is-sorted-before-the-cap-and-the-answer] hits("sort.Sort#0") == 1 && hits("handleAllFilesSymbols#0") == 1
-//@   at call sort.Sort#0 before assert[C09,everything-is-collected-before-sorting] hits("handleAllFilesSymbols#0") == 1
+//@   ensures[C09,C19,merged-list-is-sorted-before-the-cap-and-the-answer] hits("sort.Sort#0") == 1 && hits("handleAllFilesSymbols#0") == 1
+//@   at call sort.Sort#0 before assert[C09,C19,everything-is-collected-before-sorting] hits("handleAllFilesSymbols#0") == 1
 //@   loop range:a.fileStructMap exits-early-only-if [C19,every-analysed-file-is-queried] false
 //@   loop range:a.fileStructMap step [C19,every-analysed-file-is-queried] fileStruct.HandleResult == results.FileHandleOk ==> len(fileList) == prev(len(fileList)) + 1
 //@   loop range:resultSort.results exits-early-only-if [C19,every-surviving-symbol-is-returned] false
